@@ -259,4 +259,207 @@ theorem storageAppend_keeps (d : Dev) (cmp : Nat) (q : Q) (hk : d.kind = .storag
       · exact ⟨decide ((pop q).1 = Running), by hal_simp⟩
   · exact ⟨b, by hal_simp⟩
 
+/-! ## close, open, validate -/
+
+theorem cameraClose_auto (d : Dev) (q : Q) (n : Nat) (rest : List LiveDev) (b : Bool) (hni : NotIn d.id rest) :
+    autoRun ⟨n, LD d b :: rest⟩ (cameraClose d q).1 = some ⟨n, rest⟩ := by
+  unfold cameraClose
+  hal_simp
+
+theorem storageClose_auto (d : Dev) (q : Q) (n : Nat) (rest : List LiveDev) (b : Bool) (hk : d.kind = .storage)
+    (hni : NotIn d.id rest) (hb : d.state = Running → b = true) :
+    autoRun ⟨n, LD d b :: rest⟩ (storageClose d q).1 = some ⟨n, rest⟩ := by
+  unfold storageClose
+  obtain ⟨b1, g1, _, g3, g4⟩ := storageStop_keeps d q hk n rest b hni hb
+  rcases hcs : storageStop d q with ⟨d1, e1, r1, q1⟩
+  rw [hcs] at g1 g3 g4
+  simp only at g1 g3 g4
+  simp only [driverCloseDevice, pop]
+  have p2 : autoRun ⟨n, LD d1 b1 :: rest⟩ ([Ev.wr d.id .state Closed] ++ [Ev.rd d1.id .driver, Ev.drvClose d1.id (q1.headD 0)])
+      = some ⟨n, rest⟩ := by
+    hal_simp
+  have := autoRun_append_some g1 p2
+  simpa using this
+
+theorem vtable_auto (id : Nat) (k : Kind) (st : Nat) (b : Bool) (n : Nat) (rest : List LiveDev) (l : List Fn) :
+    autoRun ⟨n, ⟨id, k, st, b⟩ :: rest⟩ (l.map fun f => Ev.rd id (.fn f)) = some ⟨n, ⟨id, k, st, b⟩ :: rest⟩ := by
+  induction l with
+  | nil => rfl
+  | cons f t ih => simp [autoRun, step_rd, ih]
+
+theorem driverOpenDevice_auto (nopen : Nat) (kind : Kind) (q : Q) (rest : List LiveDev) (hrest : NotIn nopen rest) :
+    match driverOpenDevice nopen kind q with
+    | (some d, n', e, _, _) =>
+      d.id = nopen ∧ d.kind = kind ∧ n' = nopen + 1 ∧
+        autoRun ⟨nopen, rest⟩ e = some ⟨n', LD d (decide (d.state = Running)) :: rest⟩
+    | (none, n', e, _, _) => nopen ≤ n' ∧ n' ≤ nopen + 1 ∧ autoRun ⟨nopen, rest⟩ e = some ⟨n', rest⟩ := by
+  unfold driverOpenDevice
+  simp only [pop]
+  by_cases h0 : q.headD 0 = 0
+  · simp only [h0, if_true]
+    by_cases h1 : q.tail.tail.headD 0 = Ok
+    · simp only [h1, if_true]
+      simp [autoRun, step_open, LD, step_describe, step_wr_other hrest]
+    · simp only [h1, if_false]
+      refine ⟨Nat.le_succ _, Nat.le_refl _, ?_⟩
+      simp [autoRun, step_open, step_describe, step_close hrest]
+  · simp only [h0, if_false]
+    by_cases h2 : q.headD 0 = 2
+    · simp only [h2, if_true]
+      exact ⟨Nat.le_refl _, Nat.le_succ _, by simp [autoRun, step_open_none]⟩
+    · simp only [h2, if_false]
+      exact ⟨Nat.le_refl _, Nat.le_succ _, by simp [autoRun, step_open_none]⟩
+
+theorem storageValidate_auto (nopen : Nat) (q : Q) (rest : List LiveDev) (hrest : NotIn nopen rest) :
+    nopen ≤ (storageValidate nopen q).1 ∧
+      autoRun ⟨nopen, rest⟩ (storageValidate nopen q).2.1 = some ⟨(storageValidate nopen q).1, rest⟩ := by
+  unfold storageValidate
+  have h := driverOpenDevice_auto nopen .storage q rest hrest
+  rcases hd : driverOpenDevice nopen .storage q with ⟨od, n', e, r, q'⟩
+  rw [hd] at h
+  cases od with
+  | none => simp only at h ⊢; exact ⟨h.1, h.2.2⟩
+  | some d =>
+    simp only at h ⊢
+    obtain ⟨hid, hk, hn, hrun⟩ := h
+    simp only [pop]
+    have hni : NotIn d.id rest := by rw [hid]; exact hrest
+    refine ⟨by omega, ?_⟩
+    have hk' : ({ d with state := q'.headD 0 } : Dev).kind = .storage := hk
+    have p3 := storageClose_auto { d with state := q'.headD 0 } q'.tail n' rest (decide (q'.headD 0 = Running)) hk' hni
+      (by intro h; simpa using h)
+    have p2 : autoRun ⟨n', LD d (decide (d.state = Running)) :: rest⟩
+        ([Ev.rd d.id .identifier, Ev.wr d.id .identifier 0] ++
+          [Ev.rd d.id (.fn .set), Ev.call d.id .set (q'.headD 0), Ev.wr d.id .state (q'.headD 0), Ev.rd d.id .state])
+        = some ⟨n', LD { d with state := q'.headD 0 } (decide (q'.headD 0 = Running)) :: rest⟩ := by
+      hal_simp
+    have := autoRun_append_some (autoRun_append_some hrun p2) p3
+    simpa [List.append_assoc] using this
+
+/-! ## the invariant of `step` and `run` -/
+
+/-- the automaton state that mirrors a HAL state: the devices created so far, of which only the
+caller's handle is live -/
+def mirror (s : HalState) (b : Bool) : Auto :=
+  ⟨s.nopen, match s.dev with | none => [] | some d => [LD d b]⟩
+
+/-- the handle is a device the driver created, and if it is Running the driver knows -/
+def Good (s : HalState) (b : Bool) : Prop :=
+  ∀ d, s.dev = some d → d.id < s.nopen ∧ (d.state = Running → b = true)
+
+theorem onDev_inv (s : HalState) (d : Dev) (b : Bool) (out : Dev × List Ev × Nat × Q) (hs : s.dev = some d)
+    (hg : Good s b) (hk : Keeps d out) :
+    ∃ b', autoRun (mirror s b) (onDev s out).2.1 = some (mirror (onDev s out).1 b') ∧ Good (onDev s out).1 b' := by
+  obtain ⟨h1, h2⟩ := hg d hs
+  obtain ⟨b', g1, g2, g3, g4⟩ := hk s.nopen [] b (by intro y hy; simp at hy) h2
+  refine ⟨b', ?_, ?_⟩
+  · simp only [mirror, hs, onDev]; exact g1
+  · intro d' hd'
+    simp only [onDev, Option.some.injEq] at hd'
+    subst hd'
+    exact ⟨by simp only [onDev]; omega, g2⟩
+
+theorem open_inv (s : HalState) (b : Bool) (kind : Kind) (hs : s.dev = none)
+    (od : Option Dev) (n' : Nat) (e : List Ev)
+    (h : match (od, n', e) with
+      | (some d, n', e) => d.id = s.nopen ∧ d.kind = kind ∧ n' = s.nopen + 1 ∧
+          autoRun ⟨s.nopen, []⟩ e = some ⟨n', [LD d (decide (d.state = Running))]⟩
+      | (none, n', e) => s.nopen ≤ n' ∧ autoRun ⟨s.nopen, []⟩ e = some ⟨n', []⟩) :
+    ∃ b', autoRun (mirror s b) e = some (mirror { nopen := n', dev := od } b') ∧ Good { nopen := n', dev := od } b' := by
+  cases od with
+  | none =>
+    simp only at h
+    refine ⟨b, by simp only [mirror, hs]; exact h.2, ?_⟩
+    intro d hd; simp at hd
+  | some d =>
+    simp only at h
+    obtain ⟨hid, _, hn, hrun⟩ := h
+    refine ⟨decide (d.state = Running), by simp only [mirror, hs]; exact hrun, ?_⟩
+    intro d' hd'
+    simp only [Option.some.injEq] at hd'
+    subst hd'
+    exact ⟨by simp only; omega, by intro h; simpa using h⟩
+
+theorem step_inv (s : HalState) (c : Call) (q : Q) (b : Bool) (hg : Good s b) :
+    ∃ b', autoRun (mirror s b) (step s c q).2.1 = some (mirror (step s c q).1 b') ∧ Good (step s c q).1 b' := by
+  unfold step
+  by_cases hwf : c.wf s = false
+  · simp only [hwf, Bool.not_false, if_true]; exact ⟨b, rfl, hg⟩
+  replace hwf : c.wf s = true := by simpa using hwf
+  simp only [hwf, Bool.not_true, Bool.false_eq_true, if_false]
+  -- storage_validate: a device of its own, whatever the handle is
+  by_cases hv : c = .stoValidate
+  · subst hv
+    have hrest : NotIn s.nopen (mirror s b).live := by
+      intro y hy
+      simp only [mirror] at hy
+      cases hs : s.dev with
+      | none => simp [hs] at hy
+      | some d =>
+        simp only [hs, List.mem_singleton] at hy
+        subst hy
+        have := (hg d hs).1
+        simp only [LD]; omega
+    obtain ⟨h1, h2⟩ := storageValidate_auto s.nopen q (mirror s b).live hrest
+    refine ⟨b, ?_, ?_⟩
+    · simp only [mirror] at h2 ⊢; exact h2
+    · intro d hd
+      simp only at hd
+      exact ⟨Nat.lt_of_lt_of_le (hg d hd).1 h1, (hg d hd).2⟩
+  cases hs : s.dev with
+  | none =>
+    cases c <;> first
+      | exact absurd rfl hv
+      | exact ⟨b, by simp [mirror, hs, autoRun], by intro d hd; simp [hs] at hd⟩
+      | skip
+    · -- camera_open
+      have h := driverOpenDevice_auto s.nopen .camera q [] (by intro y hy; simp at hy)
+      simp only [cameraOpen]
+      rcases hd : driverOpenDevice s.nopen .camera q with ⟨od, n', e, r, q'⟩
+      rw [hd] at h
+      cases od with
+      | none => exact open_inv s b .camera hs none n' e ⟨h.1, h.2.2⟩
+      | some d =>
+        obtain ⟨g1, g2, g3, g4⟩ := h
+        refine open_inv s b .camera hs (some d) n' _ ⟨g1, g2, g3, ?_⟩
+        exact autoRun_append_some g4 (vtable_auto d.id d.kind d.state _ n' [] _)
+    · -- storage_open
+      have h := driverOpenDevice_auto s.nopen .storage q [] (by intro y hy; simp at hy)
+      simp only [storageOpen]
+      rcases hd : driverOpenDevice s.nopen .storage q with ⟨od, n', e, r, q'⟩
+      rw [hd] at h
+      cases od with
+      | none => exact open_inv s b .storage hs none n' e ⟨h.1, h.2.2⟩
+      | some d =>
+        obtain ⟨g1, g2, g3, g4⟩ := h
+        refine open_inv s b .storage hs (some d) n' _ ⟨g1, g2, g3, ?_⟩
+        exact autoRun_append_some g4 (vtable_auto d.id d.kind d.state _ n' [] _)
+  | some d =>
+    have hkind : c.isOpen = false ∧ c.kind = d.kind := by
+      cases c <;> simp_all [Call.wf, Call.isOpen, Call.kind]
+    obtain ⟨hg1, hg2⟩ := hg d hs
+    have hnil : NotIn d.id [] := by intro y hy; simp at hy
+    cases c <;> simp only [Call.isOpen, Call.kind] at hkind <;> first
+      | exact absurd rfl hv
+      | exact absurd hkind.1 (by simp)
+      | skip
+    · exact onDev_inv s d b _ hs hg (cameraSet_keeps d _ q hkind.2.symm)
+    · exact onDev_inv s d b _ hs hg (cameraGetter_keeps d _ _ q hkind.2.symm (Or.inl rfl))
+    · exact onDev_inv s d b _ hs hg (cameraGetter_keeps d _ _ q hkind.2.symm (Or.inr (Or.inl rfl)))
+    · exact onDev_inv s d b _ hs hg (cameraGetter_keeps d _ _ q hkind.2.symm (Or.inr (Or.inr rfl)))
+    · exact onDev_inv s d b _ hs hg (cameraStart_keeps d q hkind.2.symm)
+    · exact onDev_inv s d b _ hs hg (cameraStop_keeps d q hkind.2.symm)
+    · exact onDev_inv s d b _ hs hg (cameraExecuteTrigger_keeps d q hkind.2.symm)
+    · exact onDev_inv s d b _ hs hg (cameraGetFrame_keeps d q hkind.2.symm)
+    · exact ⟨b, by simp only [mirror, hs]; exact cameraClose_auto d q s.nopen [] b hnil, by intro d' hd'; simp at hd'⟩
+    · exact onDev_inv s d b _ hs hg (storageSet_keeps d _ q hkind.2.symm)
+    · exact onDev_inv s d b _ hs hg (storageVoid_keeps d _ q hkind.2.symm (Or.inl rfl))
+    · exact onDev_inv s d b _ hs hg (storageVoid_keeps d _ q hkind.2.symm (Or.inr (Or.inl rfl)))
+    · exact onDev_inv s d b _ hs hg (storageStart_keeps d q hkind.2.symm)
+    · exact onDev_inv s d b _ hs hg (storageStop_keeps d q hkind.2.symm)
+    · exact onDev_inv s d b _ hs hg (storageAppend_keeps d _ q hkind.2.symm)
+    · exact onDev_inv s d b _ hs hg (storageVoid_keeps d _ q hkind.2.symm (Or.inr (Or.inr rfl)))
+    · exact ⟨b, by simp only [mirror, hs]; exact storageClose_auto d q s.nopen [] b hkind.2.symm hnil hg2,
+        by intro d' hd'; simp at hd'⟩
+
 end AcqVerif.Hal
